@@ -11,6 +11,9 @@ L7  the reader decodes as many array elements as the type says (not as the bit s
 L8  the literal entry point returns Ok only when the token stream is exhausted and no error was recorded
 L9  a parser function that consumed an opening bracket consumes the matching closing bracket on every path to Ok
 L11 the type checker compares the end of a range literal with the max of its element type (typed and untyped ranges)
+L16 the reader looks the decoded enum tag up with a checked access (an unknown tag is an error, not a panic)
+L15 range literals print as text that parses back: no Literal::Range for signed arrays, no suffix on an end above the type's max
+L14 is_of_type accepts a Range for the element kinds for which the checker re-types ranges
 L13 as_bits of a repeat literal `[x; n]` fills a buffer of its own per repetition (none for n = 0)
 L12 every GarbleProgram carries the const sizes computed by the compilation (compile() included)
 L10 literal_arg / parse_arg / set_literal / parse_literal test or parse against the parameter type with const sizes resolved
@@ -741,8 +744,100 @@ def rule_l14(ctx):
     return res
 
 
+def rule_l15(ctx):
+    """`printing v and parsing it back as a T yields v` for range literals.  A Literal::Range can only say `<min><unsigned type>..<max>`:
+    (a) where the checker re-types an untyped range for signed elements (C05-S18) the conversion of the checked text into a Literal
+    must not answer with a Range (its text `0u8..3u8` is no [i8; 3]); (b) the exclusive end of a range may be one above the largest
+    number of its type, which has no suffixed spelling - Display must compare the end with max() before it appends the suffix."""
+    from . import C05
+    res = RuleResult("L15", "range literals print as text that parses back: no Range for signed arrays, no suffix on an end above the type's max")
+    # (a) into_literal
+    fs = [f for f in ctx.fns.values() if f.get("mir") and mir.last_seg(f["id"]) == "into_literal" and f["sp"][0] == "src/literal.rs"]
+    if len(fs) != 1:
+        raise AnchorMissing("L15: expected one into_literal in literal.rs, found %d" % len(fs))
+    ib = ctx.body(fs[0]["id"])
+    aps = [info[0] for b in range(ib.n) for info in [ib.switch_info(b)] if info and info[0] and info[2] == "ast::ExprEnum" and "Range" in info[1].values()]
+    if not aps:
+        raise AnchorMissing("L15: into_literal does not switch over ExprEnum")
+    region = set(ib.reachable([0], succ=ib.pruned_succ({aps[0]: "Range"})))
+    builds_range = [b for b in sorted(region) for st in ib.blocks[b]["stmts"]
+                    if st["k"] == "assign" and st["rv"]["k"] == "aggregate" and (st["rv"].get("adt") or "").endswith("Literal") and st["rv"].get("variant") == "Range"]
+    if "Signed" in C05.range_retype_kinds(ctx):
+        # the Range arm has to look at the element type; on the Signed edge no Literal::Range may be built
+        tsw = [(b, info) for b in sorted(region) for info in [ib.switch_info(b)] if info and info[2] == "ast::Type" and "Signed" in info[1].values() and
+               any(info[1].get(v) == "Signed" for v, _ in ib.term(b)["targets"])]
+        bad = True
+        for (b, info) in tsw:
+            t = ib.term(b)
+            signed_t = [x for v, x in t["targets"] if info[1].get(v) == "Signed"]
+            after = set(ib.reachable(signed_t))
+            if not (after & set(builds_range)):
+                bad = False
+        if bad:
+            res.bad(Finding("L15", fs[0]["id"], "a range re-typed to signed elements becomes a Literal::Range",
+                            "the checker re-types `0..3` for a parameter of type [i8; 3], and into_literal answers Literal::Range(0, 3, U8): its text `0u8..3u8` is refused for the same "
+                            "parameter (print / parse round trip fails; type test and parser disagree about one literal)", fs[0]["sp"]))
+        else:
+            res.ok({"function": "into_literal", "verdict": "a range with signed elements is converted to the array of its elements"})
+    # (b) Display
+    ds = [f for f in ctx.fns.values() if f.get("mir") and f["id"].endswith("::fmt") and "literal::Literal" in f["id"] and "Display" in f["id"]]
+    if len(ds) != 1:
+        raise AnchorMissing("L15: Display for Literal not found (%r)" % [f["id"] for f in ds])
+    db = ctx.body(ds[0]["id"])
+    dregion = set(db.reachable([0], succ=db.pruned_succ({(SELF1, ()): "Range"})))
+    if len(dregion) == len(db.reachable([0])):
+        raise AnchorMissing("L15: cannot isolate the Range arm of Display for Literal")
+    maxes = [b for b in sorted(dregion) if db.term(b)["k"] == "call" and mir.last_seg(mir.callee(db.term(b)) or "") == "max"]
+    cmp_ok = False
+    for b in sorted(dregion):
+        for st in db.blocks[b]["stmts"]:
+            if st["k"] == "assign" and st["rv"]["k"] == "binop" and st["rv"]["op"] in ("Lt", "Le", "Gt", "Ge"):
+                srcs = db.deep_sources(st["rv"]["l"], 4) | db.deep_sources(st["rv"]["r"], 4)
+                if any(r == SELF1 and "as Range" in p and p[-1] == "1" for (r, p) in srcs):
+                    cmp_ok = True
+    for c in ctx.cg.closures_of.get(ds[0]["id"], ()):
+        cb = ctx.body(c)
+        if any(st["k"] == "assign" and st["rv"]["k"] == "binop" and st["rv"]["op"] in ("Lt", "Le", "Gt", "Ge") for blk in cb.blocks for st in blk["stmts"]):
+            cmp_ok = cmp_ok or bool(maxes)
+    if maxes and cmp_ok:
+        res.ok({"function": "Display for Literal", "verdict": "the end of a range is compared with max() of its type before it is printed with the suffix"})
+    else:
+        res.bad(Finding("L15", ds[0]["id"], "the end of a range is printed with the type suffix unconditionally",
+                        "`253..256` is a value of [u8; 3] and prints as `253u8..256u8`, which does not scan (256 is no u8): the printed form of an accepted argument cannot be parsed back",
+                        ds[0]["sp"]))
+    return res
+
+
+def rule_l16(ctx):
+    """`refused with an error rather than a panic`: the reader computes the tag of an enum from the bits it is given.  Bits that were
+    not encoded from a value of the enum (a result read back from raw wires, an argument assembled by hand) can carry any tag, so the
+    tag must be looked up with a checked access, not `variants[tag]`."""
+    res = RuleResult("L16", "the reader looks the decoded enum tag up with a checked access")
+    body = ctx.body(FROM_BITS)
+    n = 0
+    for b, t in body.calls():
+        if body.blocks[b]["cleanup"] or not t["args"]:
+            continue
+        seg = mir.last_seg(mir.callee(t) or "")
+        recv = body.deep_sources(t["args"][0], 4)
+        on_variants = any(p and p[-1] == "variants" for (r, p) in recv)
+        if not on_variants or len(t["args"]) != 2:
+            continue
+        if t["func"].get("declared") in ("std::ops::Index::index", "std::ops::IndexMut::index_mut"):
+            n += 1
+            res.bad(Finding("L16", FROM_BITS, "the decoded enum tag indexes the variants unchecked",
+                            "`enum_def.variants[tag]` with a tag computed from the given bits: the bits `11` for an enum with three variants make parse_output / from_result_bits panic "
+                            "(index out of bounds) instead of answering with an error", t["sp"]))
+        elif seg == "get":
+            n += 1
+            res.ok({"site": "line %d" % t["sp"][1], "verdict": "variants.get(tag): an unknown tag is an error"})
+    if not n:
+        raise AnchorMissing("L16: from_unwrapped_bits does not look a variant up by its tag")
+    return res
+
+
 def run(ctx):
-    return ctx.run_rules([rule_l1, rule_l1b, rule_l2, rule_l3, rule_l4, rule_l5, rule_l6, rule_l7, rule_l8, rule_l9, rule_l10, rule_l11, rule_l12, rule_l13, rule_l14])
+    return ctx.run_rules([rule_l1, rule_l1b, rule_l2, rule_l3, rule_l4, rule_l5, rule_l6, rule_l7, rule_l8, rule_l9, rule_l10, rule_l11, rule_l12, rule_l13, rule_l14, rule_l15, rule_l16])
 
 
 # ---- the literal parser ------------------------------------------------------------------------------
